@@ -1,6 +1,6 @@
 (** C03 — compiled evaluation implements the core-language semantics: property theorems only. *)
 From Coq Require Import ZArith List Bool Arith.
-From ChibiV Require Import C03.Defs C03.Model C03.Spec C03.Proofs.
+From ChibiV Require Import C03.Defs C03.Model C03.Spec C03.Proofs C03.Simulation C03.SimCalls C03.SimBoxes C03.SimRest.
 Import ListNotations.
 
 (** distinct variables of one frame (parameters, rest, internal defines) never share a slot *)
@@ -66,3 +66,101 @@ Theorem boxing_consistent : forall svs c x m v tail,
         = flat_map (fun y => [ILocalRef (param_index ps r ls y); IPush (LSym y); ICons; ILocalSet (param_index ps r ls y)]) sv).
 Proof. exact Proofs.boxing_consistent. Qed.
 Print Assumptions boxing_consistent.
+
+(** compile_correct, the part that is proved.  FULL STATEMENT (not proved):
+      forall fuel prog v st', eval_program fuel prog (mkstore [] []) = SVal v st' ->
+      exists fuel' v' s', run_program fuel' prog [] [] = Done v' s' /\ vrelR (heap s') v' v      (and likewise for errors).
+    PROVED (fragment [fragR], coq/C03/SimRest.v on top of SimCalls.v): literals, global references, references to
+    parameters and to the rest parameter of the current lambda, if, begin, the inlined unary / binary opcodes except eq?,
+    closed lambda expressions (no free local variables, no internal defines, nothing assigned) WITH OR WITHOUT A REST
+    PARAMETER, and APPLICATIONS of such procedures in non-tail (CALL) and tail position (TAIL-CALL) under all three
+    argument protocols of make_call (exact arity, rest list built from the surplus arguments or '() inserted, rest
+    flagged UNUSED_REST: surplus arguments left on the stack), recursion through globals included: whenever the SPEC
+    interpreter yields a value, the code [generate] emits -- wherever it sits in the current procedure's code -- runs
+    on the model VM in finitely many steps EITHER to the instruction just after it with a value representing the SPEC's
+    value pushed on the otherwise unchanged stack (same fp / self / globals), OR (only for code in tail position, when a
+    TAIL-CALL was executed) to the return point recorded in the current frame header with that value pushed on the
+    stack below the frame; the old heap is a prefix of the new one; the SPEC store only grows.
+    [fragR] records per lambda the variables without a stack slot (the rest parameter when flagged UNUSED_REST);
+    [fragR0_is_fragR] below shows this is no restriction -- it is exactly theorem rest_unused_sound.
+    MISSING: set! / boxes / internal defines together with calls (separately: compile_correct_partial_boxes), closures
+    with free local variables (MAKE-PROCEDURE, CLOSURE-REF), eq? on pairs, error outcomes, top-level define and the
+    driver run_program over several forms; those are only tested per program (model compiler + model VM vs SPEC). *)
+Theorem compile_correct_partial : forall fuel e cur env st v st' tl svs s pre post,
+  fragR cur e = true ->
+  eval fuel e env st = SVal v st' ->
+  unboxed svs ->
+  code_of (self s) = pre ++ generate tl svs (lctxR cur) e ++ post -> ip s = length pre ->
+  env_okR cur env st s ->
+  store_ext st st' /\
+  exists v' hx, vrelR (heap s ++ hx) v' v /\
+    ((exists n, nsteps n s = Some (mkst (v' :: stk s) (fp s) (self s)
+                                        (length pre + length (generate tl svs (lctxR cur) e))
+                                        (heap s ++ hx) (globals s)))
+     \/ (tl = true /\ forall j rip rself rfp, frame_info s = Some (j, rip, rself, rfp) -> j <= fp s ->
+           exists n, nsteps n s = Some (mkst (v' :: below (fp s - j) (stk s)) rfp rself rip (heap s ++ hx) (globals s)))).
+Proof. exact SimRest.compile_correct_rest_fragment. Qed.
+Print Assumptions compile_correct_partial.
+
+(** the plain reading of the fragment (a reference to the rest parameter is always allowed) is contained in [fragR]:
+    a rest parameter the compiler flags UNUSED_REST is never mentioned (rest_unused_sound) *)
+Theorem fragR0_is_fragR : forall e, fragR0 None e = true -> fragR None e = true.
+Proof. exact SimRest.fragR0_fragR. Qed.
+Print Assumptions fragR0_is_fragR.
+
+(** end to end for ONE top-level expression of the (plain) fragment, given globals that represent the SPEC's
+    (procedures defined by earlier forms, data): the thunk built as sexp_generate_op does, applied as sexp_apply does,
+    runs to completion ([run] = Done) with a value representing the SPEC's value, the globals unchanged, the heap
+    extended *)
+Theorem compile_correct_partial_toplevel_expr : forall fuel e st v st' svs h gl,
+  fragR0 None e = true ->
+  eval fuel e [] st = SVal v st' ->
+  unboxed svs ->
+  (forall g w, glob_lookup g (sglobals st) = Some w -> exists v0, assoc_nat g gl = Some v0 /\ vrelR h v0 w) ->
+  exists s0 n v' s',
+    init_state (generate true svs None e ++ [IRet]) h gl = Next s0 /\
+    run n s0 = Done v' s' /\ vrelR (heap s') v' v /\ globals s' = gl /\ (exists hx, heap s' = h ++ hx).
+Proof. exact SimRest.compile_correct_toplevel_expr_rest. Qed.
+Print Assumptions compile_correct_partial_toplevel_expr.
+
+(** the call-free fragment with ANY unboxed variable of the current frame (parameters, rest parameter, internal
+    defines): Lit / Ref / Cnd / Seq / opcode applications; the SPEC store is unchanged *)
+Theorem compile_correct_partial_pure : forall c svs fuel e env st v st' tl s pre post,
+  pure (l_id c) (svs (l_id c)) e = true ->
+  eval fuel e env st = SVal v st' ->
+  code_of (self s) = pre ++ generate tl svs (Some c) e ++ post -> ip s = length pre ->
+  env_ok c svs env st s ->
+  st' = st /\
+  exists n v' hx,
+    nsteps n s = Some (mkst (v' :: stk s) (fp s) (self s) (length pre + length (generate tl svs (Some c) e))
+                            (heap s ++ hx) (globals s))
+    /\ vrel (heap s ++ hx) v' v.
+Proof. exact Simulation.compile_correct_pure_fragment. Qed.
+Print Assumptions compile_correct_partial_pure.
+
+(** assignments and boxes (coq/C03/SimBoxes.v), fragment [imp]: literals, global references, references to variables
+    of the current frame -- boxed ones through LOCAL-REF; CDR --, set! of boxed variables of the current frame
+    (LOCAL-REF; SET-CDR on the box), set! of globals (PUSH cell; SET-CDR), if, begin (with generate_drop_prev's rewind of
+    the PUSH after a non-final set!), the inlined opcodes except eq?; no calls.  Given the static separation of the
+    frame (a boxed variable shares its SPEC location with no other variable, two boxed variables have different
+    boxes) and the simulation relation [imp_rel] between SPEC store and VM frame / boxes / globals: whenever the SPEC
+    yields a value and a final store st', the code runs to the instruction after it with a value representing the
+    SPEC's value pushed on the unchanged stack, every heap cell that is not one of the frame's boxes B keeps its
+    content (the heap otherwise only grows), and [imp_rel] holds again for st'. *)
+Theorem compile_correct_partial_boxes : forall c svs B fp0 stk0 env,
+  (forall x y a, memn x (svs (l_id c)) = true ->
+     env_lookup (x, Local (l_id c)) env = Some a -> env_lookup (y, Local (l_id c)) env = Some a -> y = x) ->
+  (forall x y kx ky bx, memn x (svs (l_id c)) = true -> memn y (svs (l_id c)) = true ->
+     slot fp0 (param_index (l_params c) (l_rest c) (l_locals c) x) = Some kx -> sget stk0 kx = Some (VPair bx) ->
+     slot fp0 (param_index (l_params c) (l_rest c) (l_locals c) y) = Some ky -> sget stk0 ky = Some (VPair bx) -> y = x) ->
+  forall fuel e st v st' tl s pre post temps,
+  imp (l_id c) (svs (l_id c)) e = true ->
+  eval fuel e env st = SVal v st' ->
+  code_of (self s) = pre ++ generate tl svs (Some c) e ++ post -> ip s = length pre ->
+  stk s = temps ++ stk0 -> fp s = fp0 ->
+  imp_rel c svs B fp0 stk0 env st (heap s) (globals s) ->
+  exists n v' h' gl',
+    nsteps n s = Some (mkst (v' :: stk s) (fp s) (self s) (length pre + length (generate tl svs (Some c) e)) h' gl')
+    /\ evolves B (heap s) h' /\ vrelB B h' v' v /\ imp_rel c svs B fp0 stk0 env st' h' gl'.
+Proof. exact SimBoxes.compile_correct_boxes_fragment. Qed.
+Print Assumptions compile_correct_partial_boxes.
